@@ -1280,6 +1280,9 @@ pub fn run(args: &Args) -> i32 {
         rep.set("key_warnings", key_warnings.len());
     }
     // end-to-end conformance layer: the same outcomes on the un-intercepted server (real threads, real time)
+    if args.opt_usize("bursts", 1) == 1 {
+        run_bursts(prop, args.tier, args.threads, &mut rep);
+    }
     if args.opt_usize("e2e", 1) == 1 {
         let mut n_obs = 0;
         let mut names = vec![];
@@ -1384,6 +1387,146 @@ fn parse_history(v: &serde_json::Value) -> Vec<Step> {
         .collect()
 }
 
+// ---------------------------------------------------------------------------------------
+// bursts: one long history per size instead of a search (boundary sizes: per-poll budgets,
+// batch limits, backlog lengths that a small-scope search never reaches)
+// ---------------------------------------------------------------------------------------
+
+#[derive(Clone, Copy, Debug, PartialEq, Eq)]
+enum Burst {
+    /// n clients connect before the accept loop runs
+    BeforeAccept,
+    /// the service is not ready, n clients connect and are queued at the worker, the service becomes ready
+    WhileNotReady,
+    /// the server is paused, n clients connect, the server is resumed
+    WhilePaused,
+}
+
+fn burst_sizes(tier: Tier) -> Vec<usize> {
+    match tier {
+        Tier::Quick => vec![2, 15, 16, 17, 31, 32, 33, 63, 64, 65, 66, 100, 127, 128, 129, 130],
+        Tier::Thorough => (1..=140).chain([191, 192, 193, 255, 256, 257, 300]).collect(),
+    }
+}
+
+/// Runs internal events (accept first, then workers, then the server task) until none is enabled.
+fn quiesce(sys: &mut crate::sys::Sys, b: &Bounds, history: &mut Vec<explore::Step>) -> Snap {
+    for _ in 0..20_000 {
+        let snap = {
+            let _g = sys.enter();
+            explore::snapshot(sys, b, history)
+        };
+        match snap.enabled.iter().find(|e| e.is_internal()) {
+            Some(ev) => {
+                sys.apply(*ev, None);
+                history.push((*ev, None));
+            }
+            None => return snap,
+        }
+    }
+    panic!("burst scenario does not quiesce");
+}
+
+fn run_burst(prop: &'static str, kind: Burst, workers: usize, n: usize) -> Vec<(String, String)> {
+    let c = Config { log_ready: prop == "C07", ..cfg(workers, &[LKind::Uds], 1024) };
+    let b = Bounds { connects: n, ..Default::default() };
+    let mut sys = crate::sys::Sys::new(&c);
+    let mut h: Vec<explore::Step> = vec![];
+    let mut step = |sys: &mut crate::sys::Sys, h: &mut Vec<explore::Step>, ev: Ev| {
+        sys.apply(ev, None);
+        h.push((ev, None));
+    };
+    quiesce(&mut sys, &b, &mut h);
+    match kind {
+        Burst::BeforeAccept => {}
+        Burst::WhileNotReady => {
+            for slot in 0..workers {
+                step(&mut sys, &mut h, Ev::SetReady { slot, svc: 0, mode: Mode::Pending });
+            }
+            quiesce(&mut sys, &b, &mut h);
+        }
+        Burst::WhilePaused => {
+            step(&mut sys, &mut h, Ev::Pause);
+            quiesce(&mut sys, &b, &mut h);
+        }
+    }
+    for _ in 0..n {
+        step(&mut sys, &mut h, Ev::Connect(0));
+    }
+    match kind {
+        Burst::BeforeAccept => {}
+        Burst::WhileNotReady => {
+            quiesce(&mut sys, &b, &mut h);
+            for slot in 0..workers {
+                step(&mut sys, &mut h, Ev::SetReady { slot, svc: 0, mode: Mode::Ready });
+            }
+        }
+        Burst::WhilePaused => step(&mut sys, &mut h, Ev::Resume),
+    }
+    let snap = quiesce(&mut sys, &b, &mut h);
+    drop(sys);
+    let mut armed = BTreeMap::new();
+    let mut out = match prop {
+        "C01" => mon_c01(&snap, &mut armed),
+        "C03" => mon_c03(&snap, 1024, &mut armed),
+        "C05" => mon_c05(&snap, 1024, &mut armed),
+        "C07" => {
+            let mut v = mon_c07(&snap, 1, &mut armed);
+            // "queued connections ... are served once readiness returns"
+            v.extend(mon_c01(&snap, &mut armed).into_iter().filter(|(s, _)| s.ends_with("queued-connection-never-served")).map(|(_, m)| ("C07:queued-connections-not-served-once-ready".to_string(), m)));
+            v
+        }
+        _ => vec![],
+    };
+    // every connection of the burst has reached its service by now
+    let served = snap.conns.iter().filter(|c| c.calls == 1).count();
+    if out.is_empty() && served != n {
+        out.push((format!("{prop}:burst-not-fully-served"), format!("{served} of {n} connections reached their service; phases of the others: {:?}", snap.conns.iter().filter(|c| c.calls != 1).map(|c| format!("{:?}", c.phase)).take(5).collect::<Vec<_>>())));
+    }
+    out.into_iter().map(|(sig, msg)| (format!("{sig}:burst"), format!("burst of {n} connections ({:?}, {workers} worker(s), no limit in reach): {msg}", kind))).collect()
+}
+
+fn bursts_for(prop: &'static str) -> Vec<Burst> {
+    match prop {
+        "C01" => vec![Burst::BeforeAccept, Burst::WhileNotReady, Burst::WhilePaused],
+        "C03" => vec![Burst::BeforeAccept, Burst::WhilePaused],
+        "C05" => vec![Burst::WhilePaused],
+        "C07" => vec![Burst::WhileNotReady],
+        _ => vec![],
+    }
+}
+
+fn run_bursts(prop: &'static str, tier: Tier, threads: usize, rep: &mut Report) {
+    let kinds = bursts_for(prop);
+    if kinds.is_empty() {
+        return;
+    }
+    let mut work = vec![];
+    for k in &kinds {
+        for w in [1usize, 2] {
+            for n in burst_sizes(tier) {
+                work.push((*k, w, n));
+            }
+        }
+    }
+    let results = mcutil::par_map(threads, &work, |_, (k, w, n)| mcutil::quiet_catch(|| run_burst(prop, *k, *w, *n)));
+    let mut bag = mcutil::VioBag::default();
+    for ((k, w, n), r) in work.iter().zip(results) {
+        let replay = json!({"engine": "srvmc", "kind": "burst", "burst": format!("{:?}", k), "workers": w, "n": n});
+        match r {
+            Ok(v) => {
+                for (sig, msg) in v {
+                    bag.add(&sig.clone(), || Violation { signature: sig.clone(), summary: msg.clone(), replay: replay.clone() });
+                }
+            }
+            Err(p) => mcutil::machinery_error(&format!("burst scenario {:?} w={w} n={n} panicked: {}", k, mcutil::panic_message(&*p))),
+        }
+    }
+    bag.drain_into(rep);
+    rep.set("burst_scenarios", work.len());
+    rep.set("burst_largest", burst_sizes(tier).into_iter().max().unwrap_or(0));
+}
+
 fn replay(args: &Args, prop: &'static str, path: &std::path::Path, mut rep: Report) -> i32 {
     let r = mcutil::load_replay(path);
     if r["kind"] == "e2e" {
@@ -1395,6 +1538,15 @@ fn replay(args: &Args, prop: &'static str, path: &std::path::Path, mut rep: Repo
             if !mm.is_empty() {
                 rep.violation(Violation { signature: format!("{prop}:e2e:{}", res.name), summary: mm.join("; "), replay: r.clone() });
             }
+        }
+        return rep.finish();
+    }
+    if r["kind"] == "burst" {
+        let kind = match r["burst"].as_str().unwrap() { "BeforeAccept" => Burst::BeforeAccept, "WhileNotReady" => Burst::WhileNotReady, _ => Burst::WhilePaused };
+        let v = run_burst(prop, kind, r["workers"].as_u64().unwrap() as usize, r["n"].as_u64().unwrap() as usize);
+        println!("replay verdict: {}", if v.is_empty() { "holds".to_string() } else { format!("violates: {:?}", v) });
+        for (sig, msg) in v {
+            rep.violation(Violation { signature: sig, summary: msg, replay: r.clone() });
         }
         return rep.finish();
     }
